@@ -1,6 +1,7 @@
 package main
 
 import (
+	"bytes"
 	"context"
 	"fmt"
 	"sort"
@@ -11,6 +12,7 @@ import (
 type RecStore struct {
 	mu        sync.Mutex
 	m         map[string][]byte
+	recent    []recentGiven
 	Prefix    string
 	Stores    []StoreCall // every Store call since the last Reset
 	Loads     []string    // every Load call since the last Reset
@@ -37,6 +39,30 @@ func NewRecStore(prefix string) *RecStore {
 	return &RecStore{m: map[string][]byte{}, Prefix: prefix}
 }
 
+// recentGiven: the slices most recently handed to Store, as given (not copied), next to the copy
+// taken at the time.  A Persist may keep the slice it is given (mast's own in-memory store does):
+// the caller must not write to it again.  Every later Store / Load looks at the last few.
+type recentGiven struct {
+	name      string
+	given, cp []byte
+}
+
+func (s *RecStore) noteGiven(name string, given, cp []byte) {
+	s.recent = append(s.recent, recentGiven{name, given, cp})
+	if len(s.recent) > 8 {
+		s.recent = s.recent[len(s.recent)-8:]
+	}
+}
+
+func (s *RecStore) auditGiven() error {
+	for _, r := range s.recent {
+		if !bytes.Equal(r.given, r.cp) {
+			return fmt.Errorf("recstore: the byte slice handed to Persist.Store for %s was written to after Store had returned", r.name)
+		}
+	}
+	return nil
+}
+
 func (s *RecStore) Store(ctx context.Context, name string, b []byte) (err error) {
 	if s.Gate != nil {
 		s.mu.Lock()
@@ -44,7 +70,12 @@ func (s *RecStore) Store(ctx context.Context, name string, b []byte) (err error)
 		s.nStore++
 		cp := append([]byte(nil), b...)
 		s.Stores = append(s.Stores, StoreCall{name, cp})
+		aerr := s.auditGiven()
+		s.noteGiven(name, b, cp)
 		s.mu.Unlock()
+		if aerr != nil {
+			return aerr
+		}
 		err = s.Gate(n, name)
 		if err == nil {
 			s.mu.Lock()
@@ -62,6 +93,10 @@ func (s *RecStore) Store(ctx context.Context, name string, b []byte) (err error)
 	s.nStore++
 	cp := append([]byte(nil), b...)
 	s.Stores = append(s.Stores, StoreCall{name, cp})
+	if err := s.auditGiven(); err != nil {
+		return err
+	}
+	s.noteGiven(name, b, cp)
 	if s.FailStore != nil {
 		if err := s.FailStore(n, name); err != nil {
 			return err
@@ -78,6 +113,9 @@ func (s *RecStore) Load(ctx context.Context, name string) ([]byte, error) {
 	s.nLoad++
 	s.TotalLoads++
 	s.Loads = append(s.Loads, name)
+	if err := s.auditGiven(); err != nil {
+		return nil, err
+	}
 	if s.FailLoad != nil {
 		if err := s.FailLoad(n, name); err != nil {
 			return nil, err
